@@ -34,6 +34,13 @@ NAME_ALPHA = ["a", "b", "."]
 LEVELS = ["PUBLIC", "PRIVATE", "HIDDEN"]
 
 
+def sample(ctx: Ctx, x: Dict[str, Any]) -> None:
+    n = ctx.extra.setdefault("_sampled", {})
+    if n.get(x["kind"], 0) < 2:
+        n[x["kind"]] = n.get(x["kind"], 0) + 1
+        ctx.sample(x, limit=8)
+
+
 # --------------------------------------------------------------------------------------- real code
 def real_match_row(pattern: str, names: Sequence[str]) -> Dict[str, Any]:
     from pydoctor import qnmatch
@@ -42,8 +49,8 @@ def real_match_row(pattern: str, names: Sequence[str]) -> Dict[str, Any]:
         try:
             return {"p": list(pattern), "m": [i + 1 for i, n in enumerate(names) if qnmatch.qnmatch(n, pattern)],
                     "e": False}
-        except re.error:
-            return {"p": list(pattern), "m": [], "e": True}
+        except Exception as ex:                    # re.error for a reversed range; anything else is just as observable
+            return {"p": list(pattern), "m": [], "e": True, "exc": type(ex).__name__}
 
 
 def seqs(alpha: Sequence[str], k: int) -> Iterable[str]:
@@ -116,7 +123,10 @@ def real_rules_row(rules: Sequence[Tuple[str, str]], names: Sequence[str], full:
     for n in names:
         if objs[n].fullName() != n:
             raise MachineryError(f"harness built {objs[n].fullName()!r} for {n!r}")
-        got.append(objs[n].privacyClass.name)
+        try:
+            got.append(objs[n].privacyClass.name)
+        except Exception as ex:                    # an exception is an observation too (never a level)
+            got.append("raised " + type(ex).__name__)
     return got
 
 
@@ -146,7 +156,7 @@ def run_table(ctx: Ctx, kind: str, table: Dict[str, Any], *, exhaustive: bool, p
     f = ctx.scratch / f"table_{kind}_{tag}.json"
     f.write_text(json.dumps(table))
     cfg = TABLE_CFG.format(kind=kind, exh=tla(exhaustive), pa=tla(set(pa)), na=tla(set(na)), pk=pk, nk=nk,
-                           every=max(1, n // 3))
+                           every=max(2, n // 40))
     r = ctx.tlc("PrivacyTable", cfg, workers="auto", env={"TABLE_FILE": str(f)}, timeout=1500, count=count)
     if r.errors or (r.rc != 0 and not r.violated):
         raise MachineryError(f"TLC failed on PrivacyTable[{kind}/{tag}]: {r.errors[:3]} rc={r.rc}\n"
@@ -174,20 +184,27 @@ def judge_match_reports(ctx: Ctx, reports: List[Dict[str, Any]], names: Sequence
                 "invariant": "MatchIsDocumented", "kind": "match", "origin": origin, "pattern": pat,
                 "names": [names[i - 1] for i in diff] if not rep["rerr"] else [names[i - 1] for i in sorted(ref)][:5] or [""],
                 "expected": {names[i - 1]: (i in ref) for i in diff} if not rep["rerr"] else "no error",
-                "observed": {names[i - 1]: (i in real) for i in diff} if not rep["rerr"] else "re.error",
+                "observed": {names[i - 1]: (i in real) for i in diff} if not rep["rerr"] else "exception",
                 "key": f"match:{pat}"})
         elif not rep["real_is_impl"]:
             ctx.drift_note({"kind": "match", "pattern": pat, "impl": rep["impl"], "impl_error": rep["ierr"],
                             "real": rep["real"], "real_error": rep["rerr"]})
-        elif rep["real_is_ref"] and rep["real_is_impl"] and rep["impl_is_ref"]:
-            ctx.sample({"kind": "match", "pattern": pat, "matches": [names[i - 1] for i in rep["real"]][:8]})
+        elif rep["real"] and set(pat) & set("*?["):
+            sample(ctx, {"kind": "match", "pattern": pat, "matches": [names[i - 1] for i in rep["real"]][:8]})
 
 
 def judge_rules_reports(ctx: Ctx, reports: List[Dict[str, Any]], namesets: List[List[str]], origin: str) -> None:
     for rep in reports:
         names = namesets[rep["ns"] - 1]
         rules = [(r["lv"], "".join(r["pat"])) for r in rep["rules"]]
-        if not rep["real_is_ref"]:
+        if not rep["real_is_ref"] and origin == "real-build":
+            bad = [i for i in range(len(names)) if rep["ref"][i] != rep["real"][i]]
+            ctx.violation({
+                "invariant": "PrivacyIsDocumented", "kind": "build", "origin": origin, "rules": rules,
+                "expected": {names[i]: rep["ref"][i] for i in range(len(names))},
+                "observed": sorted({(names[i], rep["real"][i]) for i in bad}),
+                "key": f"build:{[lv[:3] + ':' + p for lv, p in rules]}"})
+        elif not rep["real_is_ref"]:
             bad = [i for i in range(len(names)) if rep["ref"][i] != rep["real"][i]]
             ctx.violation({
                 "invariant": "PrivacyIsDocumented", "kind": "rules", "origin": origin, "rules": rules,
@@ -197,7 +214,7 @@ def judge_rules_reports(ctx: Ctx, reports: List[Dict[str, Any]], namesets: List[
         elif not rep["real_is_impl"]:
             ctx.drift_note({"kind": "rules", "rules": rules, "impl": rep["impl"], "real": rep["real"]})
         else:
-            ctx.sample({"kind": "rules", "rules": rules, "privacy": dict(zip(names, rep["real"]))})
+            sample(ctx, {"kind": "rules", "rules": rules, "privacy": dict(zip(names, rep["real"]))})
 
 
 # ------------------------------------------------------------------------------- part 1: the matcher
@@ -246,8 +263,9 @@ def part_match(ctx: Ctx, rng: random.Random) -> int:
     reports = run_table(ctx, "match", {"names": [list(n) for n in names], "rows": rows}, exhaustive=True,
                         pa=PAT_ALPHA, na=NAME_ALPHA, pk=2, nk=3, tag="negctl", count=False)
     flagged = [rep["i"] for rep in reports if not rep["real_is_ref"]]
-    ctx.extra.setdefault("negative_control", {})["corrupted_match_cell_reported"] = flagged == [victim + 1]
-    if flagged != [victim + 1]:
+    okc = victim + 1 in flagged and (len(flagged) == 1 or bool(ctx.violations) or bool(ctx.known_seen))
+    ctx.extra.setdefault("negative_control", {})["corrupted_match_cell_reported"] = okc
+    if not okc:
         raise MachineryError(f"negative control (match table) failed: flagged rows {flagged}, expected {[victim + 1]}")
     return nontrivial
 
@@ -429,11 +447,14 @@ def replay_behaviour(rec: Dict[str, Any], refs: Dict[str, str] | None) -> Dict[s
         name = "".join(st["name"])
         if o.fullName() != name:
             drift.append({"step": i, "what": "fullName", "spec": name, "real": o.fullName()})
-        if st["op"] == "query":
-            real = o.privacyClass.name
-        elif st["op"] == "visible":
-            real = "yes" if o.isVisible else "no"
-        else:
+        try:
+            if st["op"] == "query":
+                real = o.privacyClass.name
+            elif st["op"] == "visible":
+                real = "yes" if o.isVisible else "no"
+        except Exception as ex:
+            real = "raised " + type(ex).__name__
+        if st["op"] == "reparent":
             o.reparent(mods[st["mod"]], "".join(st["nm"]))
             continue
         if real != st["exp"]:
@@ -496,7 +517,7 @@ def part_cache(ctx: Ctx) -> int:
         for d in out["drift"]:
             ctx.drift_note({"kind": "cache", "rid": rec["rid"], **d})
         if n % max(1, len(recs) // 2) == 1:
-            ctx.sample({"kind": "cache", "rules": [f"{x['lv']}:{''.join(x['pat'])}" for x in rec["rules"]],
+            sample(ctx, {"kind": "cache", "rules": [f"{x['lv']}:{''.join(x['pat'])}" for x in rec["rules"]],
                         "behaviour": [[st["op"], st["o"], "".join(st["name"]), st["mod"] + "." + "".join(st["nm"])
                                        if st["op"] == "reparent" else st["got"]] for st in rec["h"]]})
     ctx.extra["cache_machine"] = {"MaxMoves": moves, "MaxDepth": depth, "behaviours_replayed": len(recs),
@@ -527,6 +548,7 @@ def run(ctx: Ctx) -> int:
     n2 = part_rules(ctx, rng)
     n3 = part_build(ctx, rng)
     n4 = part_cache(ctx)
+    ctx.extra.pop("_sampled", None)
     ctx.exhaustive = True
     ctx.assumptions += [
         "a '-' that is neither first nor last inside [...] is ambiguous in the manual (range or literal): such patterns "
@@ -563,6 +585,9 @@ def replay(ctx: Ctx, path: str) -> int:
         rules = [tuple(r) for r in w["rules"]]
         got = real_rules_row(rules, w["names"], True)
         bad = [{n: g} for n, g, e in zip(w["names"], got, w["expected"]) if g != e]
+    elif w.get("kind") == "build":
+        names, res, _ = observe_build(ctx, [tuple(r) for r in w["rules"]], random.Random(w.get("seed", 0)))
+        bad = sorted({(n, g) for n, g in zip(names, res) if n in w["expected"] and w["expected"][n] != g})
     elif w.get("kind") == "cache":
         bad = replay_behaviour(w["behaviour"], None)["bad"]
     else:
